@@ -855,22 +855,76 @@ func judgeGet(cs *Case, out *outcome, m *model) []finding {
 }
 
 // judge returns the outcome class and the findings of one executed case.
+// judge returns the outcome class and the findings of one executed case (of its last call).
+//
+// A follow-up call may legitimately be answered from the client's caches. What it returns
+// is then judged against the answer the cache must have taken it from: when the call did
+// not itself fetch the headers / blocks (or the latest header), the most recent such
+// exchange of the first call is put in front of its own exchanges. If that answer was one
+// that has to be rejected, the ordinary clauses fire; their keys carry the prefix
+// "cached:" (a rejected answer was served later).
 func judge(cs *Case, out *outcome) (string, []finding, *model) {
-	m := buildModel(cs, out.ex)
+	exs, prefix := out.ex, ""
+	if out.prev != nil {
+		var borrowed *simeth.Exchange
+		own := false
+		switch cs.Call {
+		case "get":
+			if out.flags.hashed() {
+				for _, ex := range out.ex {
+					k := exKind(ex)
+					own = own || k == "headers" || k == "blocks"
+				}
+				for _, ex := range out.prev.ex {
+					if k := exKind(ex); !own && (k == "headers" || k == "blocks") {
+						borrowed = ex
+					}
+				}
+			} else {
+				own = true
+			}
+		case "latest":
+			own = len(out.ex) > 0
+			if !own && len(out.prev.ex) > 0 {
+				borrowed = out.prev.ex[len(out.prev.ex)-1]
+			}
+		default:
+			own = true
+		}
+		if !own {
+			prefix = "cached:"
+			if borrowed != nil {
+				exs = append([]*simeth.Exchange{borrowed}, out.ex...)
+			}
+		}
+	}
+	cls, fs, m := judgeWith(cs, out, exs)
+	if prefix != "" && len(fs) > 0 {
+		for i := range fs {
+			fs[i].key = prefix + fs[i].key
+			fs[i].detail = "(second call on the same client; first call: err=" + fmt.Sprint(out.prev.err) + ")\n" + fs[i].detail
+		}
+		cls = "VIOLATION:" + fs[0].key
+	}
+	return cls, fs, m
+}
+
+func judgeWith(cs *Case, out *outcome, exs []*simeth.Exchange) (string, []finding, *model) {
+	m := buildModel(cs, exs)
 	reason := "well-formed-response"
 	if len(m.must) > 0 {
 		reason = m.must[0][strings.Index(m.must[0], ":")+1:]
 	}
 	if out.panicked != nil {
 		key := "panic:" + panicSite(out.stack) + "/" + reason
-		return "VIOLATION:" + key, []finding{{key: key, class: "panic", detail: fmt.Sprintf("panic: %v\nresponses: %s\n%s", out.panicked, sentSummary(out.ex), firstLines(out.stack, 14))}}, m
+		return "VIOLATION:" + key, []finding{{key: key, class: "panic", detail: fmt.Sprintf("panic: %v\nresponses: %s\n%s", out.panicked, sentSummary(exs), firstLines(out.stack, 14))}}, m
 	}
 	if out.err != nil {
 		return errClass(out.err), nil, m
 	}
 	if len(m.must) > 0 {
 		key := m.must[0] + "-accepted"
-		return "VIOLATION:" + key, []finding{{key: key, class: "accepted", detail: fmt.Sprintf("the call returned no error although: %s\nresponses: %s", strings.Join(m.must, ", "), sentSummary(out.ex))}}, m
+		return "VIOLATION:" + key, []finding{{key: key, class: "accepted", detail: fmt.Sprintf("the call returned no error although: %s\nresponses: %s", strings.Join(m.must, ", "), sentSummary(exs))}}, m
 	}
 	var fs []finding
 	switch cs.Call {
@@ -894,7 +948,7 @@ func judge(cs *Case, out *outcome) (string, []finding, *model) {
 		return "ok:postcondition-holds", nil, m
 	}
 	for i := range fs {
-		fs[i].detail += "\nresponses: " + sentSummary(out.ex)
+		fs[i].detail += "\nresponses: " + sentSummary(exs)
 	}
 	return "VIOLATION:" + fs[0].key, fs, m
 }
